@@ -3,8 +3,12 @@
 # scratch worktree of /repo HEAD (outside /repo and /verif) -> demo without patch -> apply patch -> demo with patch ->
 # stable baseline -> ARMI_REPO=<worktree> ./check <property> --tier quick -> worktree removed.  Updates <dir>/meta.json.
 set -u
-D=$(realpath "$1"); P=$(python3 -c "import json;print(json.load(open('$D/meta.json'))['breaks_property'])")
 VERIF=$(cd "$(dirname "$0")/.." && pwd)
+D=$(realpath "$1"); P=$(python3 -c "import json;m=json.load(open('$D/meta.json'));print(m.get('breaks_property') or m['property'])")
+case "$D" in "$VERIF"/seeded/*) ;; *)  # a fresh seed from a seeding agent: adopt it as seeded/<P>-<slug>
+  N="$VERIF/seeded/$P-$(basename "$D")"; mkdir -p "$N"; cp "$D/patch.diff" "$D/demo.py" "$D/meta.json" "$N/"; D="$N";
+  python3 -c "import json;p='$D/meta.json';m=json.load(open(p));m['breaks_property']=m.get('breaks_property') or m['property'];json.dump(m,open(p,'w'),indent=1)";;
+esac
 WT=$(mktemp -d /tmp/evalseedwt.XXXXXX); rmdir "$WT"
 git -C /repo worktree add --detach "$WT" HEAD -q || exit 9
 trap 'git -C /repo worktree remove --force "$WT" >/dev/null 2>&1; rm -f /tmp/evalseed_$$_*.log' EXIT
